@@ -1,10 +1,11 @@
 (* C05 — the iterator is total: no panic, no hang, fused, on arbitrary bytes.  Statements only.
-   Proved: panic freedom, the fused property, how I/O errors enter, recovery only moves forward and fails only with EOF;
+   Proved: panic freedom, the fused property (also with masters open), I/O errors of the source are never dropped (they surface
+   at next()/try_recover() and over whole runs), recovery only moves forward and fails only with EOF (or the source's error);
    termination of every loop: the model's recursion budget (read_next/buffer_master recursion, the try_recover loop) is never
    exhausted on any byte stream, and a full drain ends within the model's call bound with a linear bound on the number of
    items (the call bound needs the specification's declared paths to be shorter than 2 * |input| + 64; a deeper specification
    exceeds it: C05_deep_spec_exceeds_call_bound — a statement about the model's bound, the drain still ends: C05_drain_length). *)
-From Ebml Require Import Base Tools Spec Reader Pure Proofs.Tactics Proofs.BytesProofs Proofs.DecodersProofs Proofs.ReaderIO Proofs.Refine Proofs.PureProofs Proofs.NoPanic Proofs.Termination.
+From Ebml Require Import Base Tools Spec Reader Pure Proofs.Tactics Proofs.BytesProofs Proofs.DecodersProofs Proofs.ReaderIO Proofs.Refine Proofs.PureProofs Proofs.NoPanic Proofs.Termination Proofs.AuditIO.
 
 (* no call panics: for every specification whose named parents are masters (what Props/C18.v proves of every derived
    specification), every configuration (tolerances, buffered set, size limit, EOF closing), every byte stream and every
@@ -31,6 +32,132 @@ Proof. exact exhausted_is_fused. Qed.
 Theorem C05_io_error_surfaces : forall st code s room, r_script st = Fail code :: s ->
   snd (private_read st room) = Err (RIo code).
 Proof. intros st code s room H. unfold private_read. rewrite H. reflexivity. Qed.
+
+(* ------------------------------------------------------------------ an I/O error of the source is never dropped *)
+(* ... and it surfaces at the public operations (buffered machine, every source script; Proofs/AuditIO.v).  Vocabulary:
+   [fails s]: the error codes of the Fail events of the script s, in order;
+   [adv s s' None]: s = pre ++ s' where pre contains no Fail event - the script was consumed from s down to s' and no Fail event
+     was among the events consumed;
+   [adv s s' (Some code)]: s = pre ++ Fail code :: s' where pre contains no Fail event - the events consumed were Fail-free ones
+     followed by [Fail code], which is the LAST event consumed;
+   [noerr q]: no item of the emission queue q is an error;  [ioq q]: the codes of the source errors (RIo) queued in q;
+   [pending st] = ioq (r_queue st) ++ fails (r_script st): the source errors still to come;
+   [nres_io r], [orec_io r], [outs_io outs]: the code(s) of the source error(s) in a result of next(), of try_recover(), in a run. *)
+
+(* (a) next() called with nothing queued (the only case in which it reads): EITHER no Fail event is consumed, the result is
+   not a source error and no source error is queued; OR exactly one Fail event is consumed, it is the last event consumed, and
+   its error RIo code is the result of this very call - or, when the call first has items to deliver (the Ends of masters it
+   closes before reading), it is the LAST item of the queue the call leaves, behind items none of which is an error, and the
+   call returns the first of these items *)
+Theorem C05_next_reports_fail : forall c st, r_queue st = [] ->
+  (adv (r_script st) (r_script (fst (next c st))) None /\ ioq (r_queue (fst (next c st))) = [] /\ nres_io (snd (next c st)) = []) \/
+  (exists code, adv (r_script st) (r_script (fst (next c st))) (Some code) /\
+     ((snd (next c st) = NErr (RIo code) /\ r_queue (fst (next c st)) = []) \/
+      (exists t off q, snd (next c st) = NItem t off /\ r_queue (fst (next c st)) = q ++ [QErr (RIo code)] /\ noerr q))).
+Proof. exact next_reports_fail. Qed.
+
+(* next() called with a non-empty queue reads nothing: the script is unchanged and the first queued item is delivered (so a
+   queued source error is returned after the items in front of it, one per call) *)
+Theorem C05_next_queued : forall c st x q, r_queue st = x :: q ->
+  r_script (fst (next c st)) = r_script st /\ r_queue (fst (next c st)) = q /\
+  snd (next c st) = match x with QOk t off => NItem t off | QErr e => NErr e end.
+Proof. exact next_queued. Qed.
+
+(* without buffered masters, when nothing is queued and no open known-size master is exhausted at the cursor (no End is due),
+   a call of next() that consumes [Fail code] returns NErr (RIo code) itself *)
+Theorem C05_next_returns_fail_unbuffered : forall c st code, c_buffered c = [] -> r_queue st = [] ->
+  exhausted_count (r_off st) (r_stack st) = O ->
+  adv (r_script st) (r_script (fst (next c st))) (Some code) -> snd (next c st) = NErr (RIo code).
+Proof. exact next_returns_fail_unbuffered. Qed.
+
+(* in every state: the source errors still to come before the call = the one the call returns (if any) followed by those still
+   to come after it - next() neither drops nor invents nor reorders a source error *)
+Theorem C05_next_accounts : forall c st, pending st = nres_io (snd (next c st)) ++ pending (fst (next c st)).
+Proof. exact next_accounts. Qed.
+
+(* (b) try_recover() leaves the queue alone; it consumes at most one Fail event, which then is the last event it consumes,
+   and its result is Some (RIo code) exactly in that case (the defect D25, now repaired, lost it when the Fail event was met
+   while peeking at a candidate header) *)
+Theorem C05_try_recover_reports_fail : forall c st,
+  r_queue (fst (try_recover c st)) = r_queue st /\
+  adv (r_script st) (r_script (fst (try_recover c st)))
+      (match snd (try_recover c st) with Some (RIo code) => Some code | _ => None end).
+Proof. intros c st. destruct (try_recover_io c st) as [H1 H2]. split; [exact H1|]. destruct (snd (try_recover c st)) as [[]|]; exact H2. Qed.
+Theorem C05_try_recover_returns_fail : forall c st code,
+  adv (r_script st) (r_script (fst (try_recover c st))) (Some code) -> snd (try_recover c st) = Some (RIo code).
+Proof. exact try_recover_reports_fail. Qed.
+Theorem C05_try_recover_accounts : forall c st,
+  Permutation.Permutation (pending st) (orec_io (snd (try_recover c st)) ++ pending (fst (try_recover c st))).
+Proof. exact try_recover_accounts. Qed.
+
+(* (c) over any sequence of next() / try_recover() / drain calls, on any source script, that reports neither a panic nor
+   fuel exhaustion: the Fail events of the script are, as a multiset, exactly the source errors in the output (OErr (RIo _) and
+   ORecErr (RIo _)), plus those still queued in the final state, plus the Fail events the final state has not consumed.
+   (A multiset, not a sequence: try_recover() can report a later Fail event while an earlier error is still queued behind an
+   End - second run of C05_io_ex.) *)
+Theorem C05_run_accounts_for_fails : forall c cap0 script input ops,
+  ~ In OPanic (run_reader c cap0 script input ops) -> ~ In OFuel (run_reader c cap0 script input ops) ->
+  Permutation.Permutation (fails script)
+    (outs_io (run_reader c cap0 script input ops) ++
+     ioq (r_queue (fst (run_reader_st c cap0 script input ops))) ++ fails (r_script (fst (run_reader_st c cap0 script input ops)))).
+Proof. exact run_accounts_for_fails. Qed.
+
+(* ... so if the run ends with nothing queued and no Fail event left in the script, every Fail event was reported exactly once *)
+Theorem C05_run_reports_every_fail : forall c cap0 script input ops,
+  ~ In OPanic (run_reader c cap0 script input ops) -> ~ In OFuel (run_reader c cap0 script input ops) ->
+  r_queue (fst (run_reader_st c cap0 script input ops)) = [] -> fails (r_script (fst (run_reader_st c cap0 script input ops))) = [] ->
+  Permutation.Permutation (fails script) (outs_io (run_reader c cap0 script input ops)).
+Proof. exact run_reports_every_fail. Qed.
+
+(* the errors of the buffered try_recover(): the end of the input, or the source's error - nothing else *)
+Theorem C05_recover_errors_buffered : forall c st e, snd (try_recover c st) = Some e ->
+  (exists o, e = REof o None None None) \/ exists code, e = RIo code.
+Proof. exact try_recover_errors_buffered. Qed.
+
+(* 1: the witness of D25 (Root of unknown size, then 20 bytes 0x07; the source delivers 18 bytes, then fails with code 9): the
+      Fail event is met by try_recover() while it peeks at a candidate header, and is now reported by it.
+   2: Root{SInt}(3 bytes) Root{SInt 7}: the third next() closes the first Root and meets Fail 9 reading on: it returns the End,
+      the error stays queued; try_recover() then meets Fail 4 and reports it; the next next() delivers the queued RIo 9.
+   3: the same without try_recover(): End, then RIo 9, and reading resumes. *)
+Example C05_io_ex :
+  let sp := [ {| e_id := 129; e_ty := DMaster; e_path := [] |}; {| e_id := 16641; e_ty := DSInt; e_path := [PId 129] |} ] in
+  let c := {| c_sp := sp; c_allow_id := false; c_allow_hier := false; c_allow_over := false; c_max := Some 4000000000; c_buffered := []; c_emit_eof := true |} in
+  let doc := [129; 131; 65; 1; 128; 129; 139; 65; 1; 136; 0; 0; 0; 0; 0; 0; 0; 7] in
+  run_reader c 65536 [Chunk 18; Fail 9] ([129; 255] ++ repeat 7 20) [RAll; RRecover; RAll; RNext] =
+    [OItem (TStart 129) 0; OErr (RInvalidTagId 2 7726764066567); ORecErr (RIo 9);
+     OErr (RInvalidTagId 3 7726764066567); OErr (RInvalidTagId 3 7726764066567)] /\
+  run_reader c 65536 [Chunk 18; Fail 9; Fail 4] doc [RNext; RNext; RNext; RRecover; RNext] =
+    [OItem (TStart 129) 0; OItem (TElem 16641 (VI 0)) 2; OItem (TEnd 129) 0; ORecErr (RIo 4); OErr (RIo 9)] /\
+  run_reader c 65536 [Chunk 18; Fail 9] doc [RAll; RAll] =
+    [OItem (TStart 129) 0; OItem (TElem 16641 (VI 0)) 2; OItem (TEnd 129) 0; OErr (RIo 9);
+     OItem (TStart 129) 5; OItem (TElem 16641 (VI 7)) 7; OItem (TEnd 129) 5; ONone].
+Proof. vm_compute. repeat split; reflexivity. Qed.
+
+(* fused, in general: for every configuration (EOF closing on or off) and whatever masters are still open - at the end of the
+   input, a call of next() that returns None has changed nothing at all; so every later call returns None again, and the open
+   masters stay open.  (With EOF closing off the first None comes as soon as the Ends of exhausted known-size masters are out:
+   C05_fused_open.) *)
+Theorem C05_none_is_fixed_point : forall c st f, b_bytes st = [] -> b_fuel st = S f -> snd (p_next c st) = NNone ->
+  p_next c st = (st, NNone).
+Proof. exact none_is_fixed_point. Qed.
+
+(* fused with masters open: EOF closing switched off, input exhausted, nothing queued, no open known-size master exhausted at
+   the cursor (no End is due): next() returns None and the state - open masters included - is unchanged *)
+Theorem C05_fused_open : forall c st f, c_emit_eof c = false -> b_bytes st = [] -> b_queue st = [] ->
+  exhausted_count (b_off st) (b_stack st) = O -> b_fuel st = S f -> p_next c st = (st, NNone).
+Proof. exact exhausted_is_fused_open. Qed.
+
+(* ... and "no End is due" holds once the Ends that are due have been popped *)
+Theorem C05_no_end_due_after_popping : forall off stk, exhausted_count off (skipn (exhausted_count off stk) stk) = O.
+Proof. exact exhausted_count_skipn. Qed.
+
+(* Root of unknown size left open, EOF closing off: None, None, None, and Root is still open *)
+Example C05_fused_open_ex :
+  let sp := [ {| e_id := 129; e_ty := DMaster; e_path := [] |} ] in
+  let c := {| c_sp := sp; c_allow_id := false; c_allow_hier := false; c_allow_over := false; c_max := None; c_buffered := []; c_emit_eof := false |} in
+  p_run c [129; 255] [RAll; RNext; RNext] = [OItem (TStart 129) 0; ONone; ONone; ONone] /\
+  map f_id (b_stack (fst (p_run_ops c 100 (p_init [129; 255]) [RAll; RNext; RNext]))) = [129].
+Proof. vm_compute. split; reflexivity. Qed.
 
 (* try_recover never moves backwards and fails only by reporting the end of the input *)
 Theorem C05_recover_forward : forall c st, b_off st <= b_off (fst (p_try_recover c st)).
